@@ -501,6 +501,56 @@ pub fn c14(c: &Corpus, tier: &str, seed: u64) -> Vec<Report> {
         r2.distinct_nontrivial = frags.len() as u64;
     }
 
+    // state restoration after every failing prefix (systematic)
+    let mut r4 = Report::new("C14", "oracle.state-after-failure", "every accepted corpus (text, dialect) pair: the text cut at token boundaries (each prefix usually fails somewhere inside a construct) is run on a parser with non-default options and limit; afterwards verif_state() must show state Normal, the configured trailing_commas/unescape and the initial depth, and a following run on the same parser value must equal a fresh run; non-trivial = distinct (first statement variant, dialect) whose prefixes were rejected");
+    {
+        let mut d4 = BTreeSet::new();
+        for &(i, k) in &c.accepted {
+            if tier != "thorough" && (i + k) % 2 != 0 { continue; }
+            let s = &c.literals[i];
+            let (dn, d) = (&ds[k].0, ds[k].1.as_ref());
+            let toks = match tokenize(d, true, s) { G::Val(Ok(t)) => t, _ => continue };
+            let li = LineIndex::new(s);
+            let chars: Vec<char> = s.chars().collect();
+            let cuts: Vec<usize> = toks.iter().filter(|t| !is_ws(&t.token)).filter_map(|t| li.offset(t.location.line, t.location.column)).collect();
+            let step = if tier == "thorough" { 1 } else { (cuts.len() / 5).max(1) };
+            let tcv = (i + k) % 2 == 0;
+            let o = Opts { unescape: i % 3 != 0, trailing: Some(tcv), limit: Some(41) };
+            let probe = "SELECT prior, connect_by_root FROM t ORDER BY a, offset";
+            let fresh_probe = parse(d, o, probe);
+            for &cut in cuts.iter().step_by(step).chain(std::iter::once(&chars.len())) {
+                if cut == 0 || cut > chars.len() { continue; }
+                let prefix: String = chars[..cut].iter().collect();
+                r4.evaluations += 1;
+                let res = guard(|| {
+                    match mk_parser(d, o).try_with_sql(&prefix) {
+                        Ok(mut q) => {
+                            let r1 = q.parse_statements();
+                            let st = q.verif_state();
+                            // re-target the same value
+                            let r2 = q.try_with_sql(probe).and_then(|mut q2| q2.parse_statements());
+                            (r1.is_ok(), Some(st), Some(r2))
+                        }
+                        Err(_) => (false, None, None),
+                    }
+                });
+                match res {
+                    G::Val((ok1, Some(st), Some(r2))) => {
+                        if !ok1 { d4.insert((variant_of(&s), k)); }
+                        if !(st.1 && st.2 == tcv && st.3 == o.unescape && st.4 == 41) {
+                            r4.fail("reuse/state-not-restored".into(), dn, o, &prefix, format!("verif_state={st:?}"));
+                        }
+                        if let G::Val(fp) = &fresh_probe { if *fp != r2 { r4.fail("reuse/outcome-differs-from-fresh".into(), dn, o, &prefix, format!("then `{probe}` gives {} instead of {}", trunc(&format!("{r2:?}"), 120), trunc(&format!("{fp:?}"), 120))); } }
+                    }
+                    G::Val(_) => {}
+                    G::Panic(m) => r4.panic(dn, o, &prefix, m),
+                }
+            }
+        }
+        r4.distinct_nontrivial = d4.len() as u64;
+        r4.sample(serde_json::json!({"probe": "SELECT prior, connect_by_root FROM t ORDER BY a, offset"}));
+    }
+
     // reuse of one Parser value
     let mut r3 = Report::new("C14", "oracle.reuse", "one Parser value re-targeted over random sequences of accepted and rejected corpus texts (try_with_sql / with_tokens): after every run verif_state() must show state Normal, the configured trailing_commas/unescape and the initial recursion depth, and the outcome must equal that of a fresh parser; non-trivial = sequences containing both accepted and rejected texts");
     {
@@ -544,7 +594,7 @@ pub fn c14(c: &Corpus, tier: &str, seed: u64) -> Vec<Report> {
         r3.distinct_nontrivial = mixed;
         r3.sample(serde_json::json!({"sequences": nseq}));
     }
-    vec![r, r2, r3]
+    vec![r, r2, r3, r4]
 }
 
 // ------------------------------------------------------------------ C15
